@@ -49,8 +49,8 @@ DecodeAllowed(tp) ==
             elems == IF usesTyped THEN [k \in 1..Len(tp.vals) |-> Narrow(tp.vals[k], w)]
                      ELSE IF wrongField THEN <<>> ELSE Chunk(tp.raw, w)
             ragged == ~usesTyped /\ ~wrongField /\ Len(tp.raw) % w # 0
-        IN IF ragged \/ Len(elems) # Size(tp.dims) THEN MustError
-           ELSE IF Size(tp.dims) = 0 THEN NoCrash                               \* empty tensors: not representable by every tensor library
+        IN IF Size(tp.dims) = 0 THEN (IF Len(elems) > 0 THEN MustError ELSE NoCrash)   \* empty tensors: not representable by every tensor library
+           ELSE IF ragged \/ Len(elems) # Size(tp.dims) THEN MustError
            \* raw bool bytes other than 0 and 1: every ONNX reader reads a non-zero byte as true (numpy semantics); refusing is allowed too.
            \* What is loaded must be a canonical true.
            ELSE IF dt = "bool" /\ ~usesTyped /\ \E k \in 1..Len(elems) : elems[k][1] \notin {0, 1}
